@@ -1,1 +1,392 @@
--- property theorems for C19 (stub)
+import RP.Model.Discount
+import RP.Gen.C19
+import Mathlib.Analysis.SpecialFunctions.Pow.Real
+import Mathlib.Algebra.BigOperators.Intervals
+import Mathlib.Algebra.Order.BigOperators.Ring.Finset
+import Mathlib.Tactic.Linarith
+import Mathlib.Tactic.FieldSimp
+import Mathlib.Tactic.Ring
+import Mathlib.Tactic.NormNum
+/-! # C19 — Average strategy is a polynomially weighted mean; traversers alternate
+
+Objects: `RP.Discount.regretAcc`, `policyAcc`, `weight`, `walker`, `next`, `phaseOf`
+(models of `Profile::add_regret/add_policy/next/walker`, `Discount::policy/regret`, `Phase::from`,
+`Memory::add_*`, `Strategy::weight`), instantiated with `ℝ` and `Real.rpow`; `γ, α, ω, period`, the
+phase boundaries, the walker modulus and the epoch step are the generated values.
+
+One epoch = one `add_regret`, one `add_policy` (both with the counter value `t` *before* `next()`),
+then `next()`.  `regretAcc … t0 prior r k` / `policyAcc … t0 prior p k` are the stored values after
+`k` epochs, counter started at `t0` with stored value `prior`.
+
+Not covered (outside the property's quantifier, noted for the record): a bucket visited by several
+trees in one epoch is discounted once per visit; a bucket not visited in an epoch is not discounted
+for that epoch; `Profile::load` resets the counter to 0, so the first visit after a resume
+multiplies the loaded average strategy by `0^γ = 0` (and a loaded regret by 0 if the added regret
+is non-zero) — `C19_policy_closed_form` / `regret_factor_zero` with `t0 = 0` state exactly that. -/
+namespace RP.C19
+open RP.Arith RP.Discount Finset
+
+/-! ## what the extractor read from the source -/
+
+example : RP.Gen.C19.discountPolicy = "(tasf32/(tasf32+1.)).powf(self.gamma)" := rfl
+example : RP.Gen.C19.discountRegret =
+    "ift%self.period!=0{1.}elseifregret>0.{letx=(tasf32/self.periodasf32).powf(self.alpha);x/(x+1.)}elseifregret<0.{letx=(tasf32/self.periodasf32).powf(self.omega);x/(x+1.)}else{1.}" := rfl
+example : RP.Gen.C19.phaseFrom =
+    "matchepochs{eife<crate::CFR_DISCOUNT_PHASE=>Phase::Discount,eife<crate::CFR_PRUNNING_PHASE=>Phase::Explore,_=>Phase::Prune,}" := rfl
+example : RP.Gen.C19.memoryAddRegret = "self.regret*=discount;self.regret+=value;" := rfl
+example : RP.Gen.C19.memoryAddPolicy = "self.policy*=discount;self.policy+=value;" := rfl
+example : RP.Gen.C19.profileAddRegret =
+    "lett=self.epochs();letphase=self.phase();letdiscount=Discount::default();letstrategy=self.strategies.get_mut(bucket).expect(\"bucketbeenwitnessed\");for(action,&regret)inregrets.inner(){letdecision=strategy.get_mut(action).expect(\"actionbeenwitnessed\");letdiscount=matchphase{Phase::Discount=>discount.regret(t,regret),Phase::Explore=>1.,Phase::Prune=>1.,};decision.add_regret(discount,regret);}" := rfl
+example : RP.Gen.C19.profileAddPolicy =
+    "lett=self.epochs();letdiscount=Discount::default();letstrategy=self.strategies.get_mut(bucket).expect(\"bucketbeenwitnessed\");for(action,&policy)inpolicy.inner(){letdiscount=discount.policy(t);letdecision=strategy.get_mut(action).expect(\"actionbeenwitnessed\");decision.add_policy(discount,policy);}" := rfl
+example : RP.Gen.C19.profilePhase = "Phase::from(self.epochs())" := rfl
+example : RP.Gen.C19.strategyWeight =
+    "letdenom=self.0.values().map(|s|s.policy()).sum::<Probability>();letnumer=self.0.get(edge).expect(\"edgeininfoset\").policy();numer/denom" := rfl
+
+/-! ## the real instantiation -/
+
+noncomputable def realOps : Ops ℝ where
+  ofNat n := (n : ℝ)
+  add a b := a + b
+  mul a b := a * b
+  div a b := a / b
+  fmax a b := max a b
+  fmin a b := min a b
+  le a b := decide (a ≤ b)
+  lt a b := decide (a < b)
+  isNaN _ := false
+  isInf _ := false
+  sumSeed := 0
+
+/-- `powf` over the reals -/
+noncomputable def rpow : ℝ → ℝ → ℝ := fun x y => x ^ y
+
+/-- `Discount::default()` over the reals -/
+noncomputable def PR : Params ℝ := params realOps
+
+/-- the generated parameters: `period = 1`, `γ = 2`, `α = 3/2`, `ω = 1/2` -/
+theorem PR_period : PR.period = 1 := by decide
+theorem PR_gamma : PR.gamma = 2 := by
+  simp [PR, params, ofPair, realOps, RP.Gen.discount_gamma]
+theorem PR_alpha : PR.alpha = 3 / 2 := by
+  simp [PR, params, ofPair, realOps, RP.Gen.discount_alpha]
+theorem PR_omega : PR.omega = 1 / 2 := by
+  simp [PR, params, ofPair, realOps, RP.Gen.discount_omega]
+theorem PR_gamma_ne : PR.gamma ≠ 0 := by rw [PR_gamma]; norm_num
+theorem PR_period_pos : 0 < PR.period := by decide
+
+/-- the discount factor of the average strategy at counter `u` -/
+noncomputable def δ (u : ℕ) : ℝ := policyDiscount realOps rpow PR u
+/-- the factor `add_regret` applies at counter `u` when the regret `r` is added -/
+noncomputable def d (u : ℕ) (r : ℝ) : ℝ := regretFactor realOps rpow PR u r
+
+theorem δ_eq (u : ℕ) : δ u = ((u : ℝ) / ((u : ℝ) + 1)) ^ PR.gamma := by
+  simp [δ, policyDiscount, realOps, rpow]
+
+/-! ## a linear recurrence and its closed form -/
+
+/-- `a (k+1) = a k * f k + v k`, `a 0 = prior`  ⇒  prior·Π f + Σ_s v_s Π_{s<j<k} f_j -/
+theorem linrec_closed (f v : ℕ → ℝ) (prior : ℝ) (a : ℕ → ℝ) (h0 : a 0 = prior)
+    (hs : ∀ k, a (k + 1) = a k * f k + v k) (k : ℕ) :
+    a k = prior * ∏ j ∈ range k, f j + ∑ s ∈ range k, v s * ∏ j ∈ Ico (s + 1) k, f j := by
+  induction k with
+  | zero => simp [h0]
+  | succ k ih =>
+    rw [hs, ih, prod_range_succ, sum_range_succ]
+    have hsum : ∑ s ∈ range k, v s * ∏ j ∈ Ico (s + 1) (k + 1), f j
+        = (∑ s ∈ range k, v s * ∏ j ∈ Ico (s + 1) k, f j) * f k := by
+      rw [sum_mul]
+      apply sum_congr rfl
+      intro s hs'
+      have : s + 1 ≤ k := by simpa [Nat.succ_le_iff] using mem_range.1 hs'
+      rw [prod_Ico_succ_top this]; ring
+    rw [hsum]
+    simp only [Ico_self, prod_empty]
+    ring
+
+theorem regretAcc_succ (t0 : ℕ) (prior : ℝ) (r : ℕ → ℝ) (k : ℕ) :
+    regretAcc realOps rpow PR t0 prior r (k + 1)
+      = regretAcc realOps rpow PR t0 prior r k * d (t0 + k) (r k) + r k := by
+  simp [regretAcc, regretStep, accumulate, realOps, d]
+
+theorem policyAcc_succ (t0 : ℕ) (prior : ℝ) (p : ℕ → ℝ) (k : ℕ) :
+    policyAcc realOps rpow PR t0 prior p (k + 1)
+      = policyAcc realOps rpow PR t0 prior p k * δ (t0 + k) + p k := by
+  simp [policyAcc, policyStep, accumulate, realOps, δ]
+
+/-! ## regret: a combination with weights in (0,1], non-decreasing, one after the discount phase -/
+
+/-- the weight of the regret added in the `s`-th epoch, seen after `k` epochs -/
+noncomputable def w (t0 : ℕ) (r : ℕ → ℝ) (s k : ℕ) : ℝ := ∏ j ∈ Ico (s + 1) k, d (t0 + j) (r j)
+
+/-- **C19 (regret), closed form**: `regret_T = prior·Π d + Σ_s r_s · w_s` -/
+theorem C19_regret_closed_form (t0 : ℕ) (prior : ℝ) (r : ℕ → ℝ) (k : ℕ) :
+    regretAcc realOps rpow PR t0 prior r k
+      = prior * ∏ j ∈ range k, d (t0 + j) (r j) + ∑ s ∈ range k, r s * w t0 r s k :=
+  linrec_closed (fun j => d (t0 + j) (r j)) r prior _ rfl (regretAcc_succ t0 prior r) k
+
+theorem ratio_pos_lt_one {x : ℝ} (hx : 0 < x) : 0 < x / (x + 1) ∧ x / (x + 1) ≤ 1 := by
+  have h1 : 0 < x + 1 := by linarith
+  exact ⟨div_pos hx h1, (div_le_one h1).2 (by linarith)⟩
+
+theorem ratio_eq (t : ℕ) (e : ℝ) :
+    ratio realOps rpow PR t e = ((t : ℝ) / (PR.period : ℝ)) ^ e / (((t : ℝ) / (PR.period : ℝ)) ^ e + 1) := by
+  simp [ratio, realOps, rpow]
+
+/-- every factor applied from counter 1 on lies in `(0, 1]`, whatever the sign pattern -/
+theorem d_pos_le_one {u : ℕ} (hu : 1 ≤ u) (r : ℝ) : 0 < d u r ∧ d u r ≤ 1 := by
+  have hbase : (0 : ℝ) < (u : ℝ) / (PR.period : ℝ) := by
+    apply div_pos
+    · exact_mod_cast hu
+    · exact_mod_cast PR_period_pos
+  have one : (0 : ℝ) < 1 ∧ (1 : ℝ) ≤ 1 := ⟨one_pos, le_refl _⟩
+  unfold d regretFactor
+  cases phaseOf u with
+  | explore => simp [realOps]
+  | prune => simp [realOps]
+  | discount =>
+    simp only [regretDiscount]
+    split_ifs
+    · simp [realOps]
+    · rw [ratio_eq]; exact ratio_pos_lt_one (Real.rpow_pos_of_pos hbase _)
+    · rw [ratio_eq]; exact ratio_pos_lt_one (Real.rpow_pos_of_pos hbase _)
+    · simp [realOps]
+
+/-- the sign-dependent value of the factor inside the discount phase (`period = 1`):
+    `u^α/(u^α+1)` for an added regret `> 0`, `u^ω/(u^ω+1)` for `< 0`, `1` for `= 0` -/
+theorem d_discount_phase {u : ℕ} (hu : u < RP.Gen.CFR_DISCOUNT_PHASE) (r : ℝ) :
+    d u r = if 0 < r then (u : ℝ) ^ PR.alpha / ((u : ℝ) ^ PR.alpha + 1)
+            else if r < 0 then (u : ℝ) ^ PR.omega / ((u : ℝ) ^ PR.omega + 1) else 1 := by
+  have hp : phaseOf u = Phase.discount := by simp [phaseOf, hu]
+  have hmod : u % PR.period = 0 := by rw [PR_period]; exact Nat.mod_one u
+  unfold d regretFactor
+  rw [hp]
+  simp only [regretDiscount, hmod, ne_eq, not_true_eq_false, if_false]
+  simp only [ratio_eq, PR_period]
+  simp [realOps]
+
+/-- **exactly one once the discount phase is over** -/
+theorem d_one_after_phase {u : ℕ} (hu : RP.Gen.CFR_DISCOUNT_PHASE ≤ u) (r : ℝ) : d u r = 1 := by
+  unfold d regretFactor phaseOf
+  rw [if_neg (by omega)]
+  split_ifs <;> simp [realOps]
+
+/-- at counter 0 an added non-zero regret wipes what was stored (`0^α/(0^α+1) = 0`) -/
+theorem regret_factor_zero {r : ℝ} (hr : r ≠ 0) : d 0 r = 0 := by
+  rw [d_discount_phase (by decide)]
+  have ha : (0 : ℝ) ^ PR.alpha = 0 := Real.zero_rpow (by rw [PR_alpha]; norm_num)
+  have ho : (0 : ℝ) ^ PR.omega = 0 := Real.zero_rpow (by rw [PR_omega]; norm_num)
+  rcases lt_or_gt_of_ne hr with h | h
+  · simp [h, not_lt.2 h.le, ho]
+  · simp [h, ha]
+
+/-- **weights in (0,1]** -/
+theorem C19_weight_range (t0 : ℕ) (r : ℕ → ℝ) (s k : ℕ) : 0 < w t0 r s k ∧ w t0 r s k ≤ 1 := by
+  unfold w
+  constructor
+  · apply prod_pos
+    intro j hj
+    exact (d_pos_le_one (by have := (mem_Ico.1 hj).1; omega) _).1
+  · apply prod_le_one
+    · intro j hj
+      exact (d_pos_le_one (by have := (mem_Ico.1 hj).1; omega) _).1.le
+    · intro j hj
+      exact (d_pos_le_one (by have := (mem_Ico.1 hj).1; omega) _).2
+
+/-- **weights do not decrease with recency** -/
+theorem C19_weight_mono (t0 : ℕ) (r : ℕ → ℝ) {s k : ℕ} (h : s + 1 < k) :
+    w t0 r s k ≤ w t0 r (s + 1) k := by
+  unfold w
+  rw [prod_eq_prod_Ico_succ_bot h]
+  have hd := d_pos_le_one (u := t0 + (s + 1)) (by omega) (r (s + 1))
+  have hw := (C19_weight_range t0 r (s + 1) k).1
+  unfold w at hw
+  calc d (t0 + (s + 1)) (r (s + 1)) * ∏ j ∈ Ico (s + 1 + 1) k, d (t0 + j) (r j)
+      ≤ 1 * ∏ j ∈ Ico (s + 1 + 1) k, d (t0 + j) (r j) := mul_le_mul_of_nonneg_right hd.2 hw.le
+    _ = _ := one_mul _
+
+theorem C19_weight_mono_le (t0 : ℕ) (r : ℕ → ℝ) {s s' k : ℕ} (h : s ≤ s') (h' : s' < k) :
+    w t0 r s k ≤ w t0 r s' k := by
+  induction s', h using Nat.le_induction with
+  | base => exact le_refl _
+  | succ n hn ih => exact le_trans (ih (by omega)) (C19_weight_mono t0 r (by omega))
+
+/-- **weights are exactly one once the discount phase is over** -/
+theorem C19_weight_one (t0 : ℕ) (r : ℕ → ℝ) {s : ℕ} (k : ℕ)
+    (h : RP.Gen.CFR_DISCOUNT_PHASE ≤ t0 + s + 1) : w t0 r s k = 1 := by
+  unfold w
+  apply prod_eq_one
+  intro j hj
+  exact d_one_after_phase (by have := (mem_Ico.1 hj).1; omega) _
+
+/-- after the discount phase regrets are plain sums -/
+theorem C19_regret_plain_sum (t0 : ℕ) (h : RP.Gen.CFR_DISCOUNT_PHASE ≤ t0) (prior : ℝ) (r : ℕ → ℝ) (k : ℕ) :
+    regretAcc realOps rpow PR t0 prior r k = prior + ∑ s ∈ range k, r s := by
+  rw [C19_regret_closed_form]
+  have h1 : ∏ j ∈ range k, d (t0 + j) (r j) = 1 :=
+    prod_eq_one (fun j _ => d_one_after_phase (by omega) _)
+  rw [h1, mul_one]
+  congr 1
+  apply sum_congr rfl
+  intro s _
+  rw [C19_weight_one t0 r k (by omega), mul_one]
+
+/-! ## average strategy: polynomially weighted sum, weighted mean -/
+
+theorem δ_telescope (γ : ℝ) (t0 a : ℕ) (ha : 0 < t0 + a) (k : ℕ) (hk : a ≤ k) :
+    ∏ j ∈ Ico a k, (((t0 + j : ℕ) : ℝ) / (((t0 + j : ℕ) : ℝ) + 1)) ^ γ
+      = (((t0 + a : ℕ) : ℝ) / ((t0 + k : ℕ) : ℝ)) ^ γ := by
+  induction k, hk using Nat.le_induction with
+  | base =>
+    have : ((t0 + a : ℕ) : ℝ) ≠ 0 := by exact_mod_cast ha.ne'
+    rw [Ico_self, prod_empty, div_self this, Real.one_rpow]
+  | succ k hk ih =>
+    rw [prod_Ico_succ_top hk, ih]
+    have h1 : (0 : ℝ) < ((t0 + a : ℕ) : ℝ) := by exact_mod_cast ha
+    have h2 : (0 : ℝ) < ((t0 + k : ℕ) : ℝ) := by
+      have : 0 < t0 + k := by omega
+      exact_mod_cast this
+    rw [← Real.mul_rpow (div_pos h1 h2).le (div_pos h2 (by linarith)).le]
+    congr 1
+    have : ((t0 + (k + 1) : ℕ) : ℝ) = ((t0 + k : ℕ) : ℝ) + 1 := by push_cast; ring
+    rw [this]
+    field_simp
+
+/-- the factor left on the prior after `k ≥ 1` epochs: `(t0 / (t0 + k))^γ` (0 when `t0 = 0`) -/
+theorem δ_prior (t0 k : ℕ) (hk : 1 ≤ k) :
+    ∏ j ∈ range k, δ (t0 + j) = ((t0 : ℝ) / ((t0 + k : ℕ) : ℝ)) ^ PR.gamma := by
+  rcases Nat.eq_zero_or_pos t0 with h0 | h0
+  · subst h0
+    have hz : δ 0 = 0 := by
+      rw [δ_eq]; simp [Real.zero_rpow PR_gamma_ne]
+    rw [prod_eq_zero (mem_range.2 hk) (by simpa using hz)]
+    simp [Real.zero_rpow PR_gamma_ne]
+  · have := δ_telescope PR.gamma t0 0 (by omega) k (Nat.zero_le k)
+    rw [← Nat.Ico_zero_eq_range]
+    simpa [δ_eq] using this
+
+/-- **C19 (average strategy), closed form** for `k ≥ 1` epochs from counter `t0`:
+    `policy = prior·(t0/(t0+k))^γ + Σ_s p_s · ((t0+s+1)/(t0+k))^γ` -/
+theorem C19_policy_closed_form (t0 : ℕ) (prior : ℝ) (p : ℕ → ℝ) (k : ℕ) (hk : 1 ≤ k) :
+    policyAcc realOps rpow PR t0 prior p k
+      = prior * ((t0 : ℝ) / ((t0 + k : ℕ) : ℝ)) ^ PR.gamma
+        + ∑ s ∈ range k, p s * (((t0 + s + 1 : ℕ) : ℝ) / ((t0 + k : ℕ) : ℝ)) ^ PR.gamma := by
+  rw [linrec_closed (fun j => δ (t0 + j)) p prior _ rfl (policyAcc_succ t0 prior p) k, δ_prior t0 k hk]
+  congr 1
+  apply sum_congr rfl
+  intro s hs
+  have hsk : s + 1 ≤ k := by simpa [Nat.succ_le_iff] using mem_range.1 hs
+  have := δ_telescope PR.gamma t0 (s + 1) (by omega) k hsk
+  simp only [δ_eq]
+  rw [this]
+  rfl
+
+/-- **C19 (average strategy), fresh profile**: after epochs `0..T` the stored policy is
+    `Σ_{s≤T} p_s · ((s+1)/(T+1))^γ`; the prior (the uniform `1/n` written by `witness`) is wiped
+    at `t = 0` because the discount factor there is `0^γ = 0`. -/
+theorem C19_policy_weighted_sum (prior : ℝ) (p : ℕ → ℝ) (T : ℕ) :
+    policyAcc realOps rpow PR 0 prior p (T + 1)
+      = ∑ s ∈ range (T + 1), p s * (((s + 1 : ℕ) : ℝ) / ((T + 1 : ℕ) : ℝ)) ^ PR.gamma := by
+  rw [C19_policy_closed_form 0 prior p (T + 1) (by omega)]
+  simp [Real.zero_rpow PR_gamma_ne]
+
+theorem list_sum_finset_sum {ι : Type} (as : List ι) (g : ι → ℕ → ℝ) (k : ℕ) :
+    (as.map fun a => ∑ s ∈ range k, g a s).sum = ∑ s ∈ range k, (as.map fun a => g a s).sum := by
+  induction as with
+  | nil => simp
+  | cons a as ih => simp only [List.map_cons, List.sum_cons, ih, sum_add_distrib]
+
+theorem realDiv (a b : ℝ) : realOps.div a b = a / b := rfl
+
+theorem realSum_eq (l : List ℝ) : realOps.sum l = l.sum := by
+  have h : ∀ (l : List ℝ) (a : ℝ), l.foldl realOps.add a = a + l.sum := by
+    intro l
+    induction l with
+    | nil => intro a; simp
+    | cons x xs ih => intro a; simp only [List.foldl_cons, List.sum_cons, ih]; simp only [realOps]; ring
+  simp only [Ops.sum, h]; simp [realOps]
+
+/-- **C19 (average strategy), weighted mean**: on a fresh profile, if every per-epoch strategy
+    `p · s` is a distribution over the actions `as`, the normalised stored strategy
+    (`Strategy::weight`) of action `a` after epochs `0..T` is the `(s+1)^γ`-weighted mean
+    `Σ_s (s+1)^γ p_a(s) / Σ_s (s+1)^γ`. -/
+theorem C19_weighted_mean {ι : Type} (as : List ι) (p : ι → ℕ → ℝ) (prior : ι → ℝ) (T : ℕ)
+    (hdist : ∀ s, (as.map fun a => p a s).sum = 1) (a : ι) :
+    weight realOps (as.map fun b => policyAcc realOps rpow PR 0 (prior b) (p b) (T + 1))
+        (policyAcc realOps rpow PR 0 (prior a) (p a) (T + 1))
+      = (∑ s ∈ range (T + 1), ((s + 1 : ℕ) : ℝ) ^ PR.gamma * p a s)
+          / ∑ s ∈ range (T + 1), ((s + 1 : ℕ) : ℝ) ^ PR.gamma := by
+  have hT : (0 : ℝ) < ((T + 1 : ℕ) : ℝ) := by exact_mod_cast Nat.succ_pos T
+  have hTγ : (0 : ℝ) < ((T + 1 : ℕ) : ℝ) ^ PR.gamma := Real.rpow_pos_of_pos hT _
+  have hterm : ∀ (q : ℕ → ℝ), ∑ s ∈ range (T + 1), q s * (((s + 1 : ℕ) : ℝ) / ((T + 1 : ℕ) : ℝ)) ^ PR.gamma
+      = (∑ s ∈ range (T + 1), ((s + 1 : ℕ) : ℝ) ^ PR.gamma * q s) / ((T + 1 : ℕ) : ℝ) ^ PR.gamma := by
+    intro q
+    rw [div_eq_mul_inv, sum_mul]
+    apply sum_congr rfl
+    intro s _
+    rw [Real.div_rpow (by positivity) hT.le]
+    ring
+  unfold weight
+  rw [realSum_eq, realDiv]
+  simp only [C19_policy_weighted_sum]
+  rw [list_sum_finset_sum as (fun b s => p b s * (((s + 1 : ℕ) : ℝ) / ((T + 1 : ℕ) : ℝ)) ^ PR.gamma)]
+  have hden : ∑ s ∈ range (T + 1), (as.map fun b => p b s * (((s + 1 : ℕ) : ℝ) / ((T + 1 : ℕ) : ℝ)) ^ PR.gamma).sum
+      = ∑ s ∈ range (T + 1), 1 * (((s + 1 : ℕ) : ℝ) / ((T + 1 : ℕ) : ℝ)) ^ PR.gamma := by
+    apply sum_congr rfl
+    intro s _
+    rw [List.sum_map_mul_right, hdist s]
+  rw [hden, hterm (p a), hterm (fun _ => 1)]
+  simp only [mul_one]
+  rw [div_div_div_cancel_right₀ hTγ.ne']
+
+/-! ## traversers alternate -/
+
+/-- `walker t = t mod 2` -/
+theorem C19_walker (t : ℕ) : walker t = t % 2 := by
+  unfold walker
+  simp only [RP.Gen.C09.walkerMod, RP.Gen.C09.walkerZero, RP.Gen.C09.walkerElse]
+  rcases Nat.mod_two_eq_zero_or_one t with h | h <;> simp [h]
+
+/-- a fresh profile (`Default`) and a loaded one both start at counter 0: player 0 walks first -/
+theorem C19_walker_start : walker RP.Gen.C09.startEpoch = 0 ∧ walker RP.Gen.C09.loadEpoch = 0 := by decide
+
+/-- `next` adds one, and the traverser changes with every epoch -/
+theorem C19_walker_alternates (t : ℕ) : next t = t + 1 ∧ walker (next t) = 1 - walker t := by
+  refine ⟨rfl, ?_⟩
+  rw [C19_walker, C19_walker]
+  show (t + 1) % 2 = 1 - t % 2
+  omega
+
+theorem C19_counter (t0 k : ℕ) : counterAfter t0 k = t0 + k := by
+  induction k with
+  | zero => rfl
+  | succ k ih => simp only [counterAfter, ih]; rfl
+
+/-- the phases: `Discount` below `CFR_DISCOUNT_PHASE`, `Explore` below `CFR_PRUNNING_PHASE`, then `Prune` -/
+theorem phase_boundaries (t : ℕ) :
+    (phaseOf t = Phase.discount ↔ t < RP.Gen.CFR_DISCOUNT_PHASE)
+    ∧ (phaseOf t = Phase.prune ↔ RP.Gen.CFR_PRUNNING_PHASE ≤ t) := by
+  have hlt : RP.Gen.CFR_DISCOUNT_PHASE < RP.Gen.CFR_PRUNNING_PHASE := by decide
+  unfold phaseOf
+  constructor <;> split_ifs <;> simp <;> omega
+
+/-! ## non-vacuity -/
+
+-- three epochs on a fresh profile, strategies 1, 0, 1/2 for one action: (1·1 + 0·4 + ½·9)/9
+example : policyAcc realOps rpow PR 0 (1/3) (fun s => if s = 0 then 1 else if s = 1 then 0 else 1/2) 3
+    = 11 / 18 := by
+  rw [C19_policy_weighted_sum]
+  simp only [PR_gamma, sum_range_succ, range_zero, sum_empty]
+  norm_num
+-- regrets +1, -1 at counters 0, 1: the first is weighted by d(1, -1) = 1^ω/(1^ω+1) = 1/2
+example : regretAcc realOps rpow PR 0 0 (fun s => if s = 0 then 1 else -1) 2 = -1 / 2 := by
+  rw [C19_regret_closed_form]
+  simp only [w, sum_range_succ, range_zero, sum_empty, prod_range_succ, prod_empty]
+  have h1 : d (0 + 1) (-1) = 1 / 2 := by
+    rw [d_discount_phase (by decide)]; norm_num
+  simp [h1]
+  norm_num
+example : walker 0 = 0 ∧ walker 1 = 1 ∧ walker 2 = 0 ∧ phaseOf 389 = .discount ∧ phaseOf 390 = .explore := by
+  decide
+
+end RP.C19
